@@ -2,10 +2,10 @@
 # tools/rerun_round.sh <root prefix, e.g. s5> <tag, e.g. r5m> : re-runs every change of a round (patch + demonstration) against the current /repo and the
 # property's quick check, writing .work/seedres/<P>_<tag><n>.rerun.json (merged into the round's results by the caller)
 ROOT=$1; TAG=$2
-cd /verif
+cd "$(dirname "$0")/.."
 for p in C01 C02 C03 C04 C05 C06 C07 C08 C09 C10 C11 C12 C13 C14 C15 C16 C17 C18 C19 C20; do for n in 1 2 3; do
   d=/tmp/${ROOT}_$p/mutants
   [ -f $d/m$n.diff ] || continue
-  /venv/bin/python tools/try_mutant.py $d/m$n.diff --props $p --demo $d/m${n}_demo.py --json /verif/.work/seedres/${p}_${TAG}$n.rerun.json 2>&1 | grep -E "caught by|DOES NOT|3way|demo on" | tr '\n' ' '
+  /venv/bin/python tools/try_mutant.py $d/m$n.diff --props $p --demo $d/m${n}_demo.py --json .work/seedres/${p}_${TAG}$n.rerun.json 2>&1 | grep -E "caught by|DOES NOT|3way|demo on" | tr '\n' ' '
   echo " <= $p ${TAG}$n"
 done; done
